@@ -519,12 +519,17 @@ pub fn run(cfg: &Cfg) {
                 n=$(wc -c < \"$f\"); cp -p \"$f\" .keep-run; head -c \"$n\" /dev/zero | tr '\\0' 'Z' > \"$f\"; touch -r .keep-run \"$f\"; rm -f .keep-run; fi; done; exit 0";
             // variants of the call: with / without a signing key, hash-algorithm selections, strip
             // prefixes, other material than product paths, an empty command, other exit statuses
-            let variant = (i / 5) % 6;
+            let variant = (i / 5) % 8;
             let pool = crate::meta::key_pool(0);
             let key = if variant % 2 == 1 { Some(&pool[(i / 5) % pool.len()]) } else { None };
             let algs: Option<&[&str]> = match variant { 2 => Some(&["sha512", "sha256"]), 3 => Some(&["sha512"]), _ => None };
             let strips: Option<&[&str]> = if variant == 4 { Some(&["./", "sub/"]) } else { None };
+            // 66 KB of two-byte characters on both streams (a pipe hands that over in several portions), and
+            // output that is no UTF-8 at all (there is no text to record: an error, or the bytes themselves)
+            let long_script = r"i=0; while [ $i -lt 3000 ]; do printf '\303\251\303\251\303\251\303\251\303\251\303\251\303\251\303\251\303\251\303\251\303\251'; printf '\303\251\303\251\303\251\303\251\303\251\303\251\303\251\303\251\303\251\303\251\303\251' 1>&2; i=$((i+1)); done";
             let (status, cmd): (i32, Vec<&str>) = match variant {
+                6 => (0, vec!["sh", "-c", long_script]),
+                7 => (0, vec!["sh", "-c", r"printf 'ok \377\376 not text'"]),
                 5 => (0, vec![]),
                 1 => (3, vec!["sh", "-c", "echo out-text; echo err-text 1>&2; echo created > created-by-run.txt; exit 3"]),
                 _ => (0, vec!["sh", "-c", script]),
@@ -567,6 +572,11 @@ pub fn run(cfg: &Cfg) {
                     }
                     if cmd.is_empty() {
                         sink.oracle(l.byproducts == in_toto::models::byproducts::ByProducts::new() && l.materials == l.products, "a run without a command records byproducts or a change", &op);
+                    } else if variant == 6 {
+                        let want = "\u{e9}".repeat(33000);
+                        sink.oracle(l.byproducts.stdout().as_deref() == Some(want.as_str()) && l.byproducts.stderr().as_deref() == Some(want.as_str()), "byproducts of a run are not the command's (long, non-ASCII) output streams", &op);
+                    } else if variant == 7 {
+                        sink.oracle(false, "a run whose command wrote bytes that are no text was recorded with other output than the command's", &op);
                     } else {
                         sink.oracle(l.byproducts.stdout().as_deref() == Some("out-text\n") && l.byproducts.stderr().as_deref() == Some("err-text\n") && l.byproducts.return_value() == Some(status), "byproducts of a run are not the command's output streams and exit status", &op);
                     }
